@@ -217,6 +217,13 @@ func c14Cases() []c14Case {
 		c14Case{desc: "style-object:capital-key-overrides-static", tpl: `<p style="Color: blue; margin: 0" :style="{Color: 'red'}">t</p>`, data: map[string]any{}, want: map[string]string{"style": ""}, style: map[string]string{"Color": "red", "margin": "0"}},
 		c14Case{desc: "style-object:capital-keys-override-static", tpl: `<p style="Top: 1px; Margin: 0; color: blue" :style="{Top: t, Margin: m}">t</p>`, data: map[string]any{"t": "2px", "m": "4px"}, want: map[string]string{"style": ""}, style: map[string]string{"Top": "2px", "Margin": "4px", "color": "blue"}},
 		c14Case{desc: "style-object:capital-key-quoted-overrides-static", tpl: `<p style="margin: 0; Display: block" :style="{'Display': d}">t</p>`, data: map[string]any{"d": "flex"}, want: map[string]string{"style": ""}, style: map[string]string{"Display": "flex", "margin": "0"}},
+		// the binding written BEFORE the static attribute of the same name: the order of the two in the source does not matter
+		c14Case{desc: "bound-before-static:class", tpl: `<p :class="x" class="a">t</p>`, data: map[string]any{"x": "b"}, want: map[string]string{"class": "a b"}},
+		c14Case{desc: "bound-before-static:class-object", tpl: `<p :class="{on: x, off: y}" id="i" class="a">t</p>`, data: map[string]any{"x": true, "y": false}, want: map[string]string{"class": "a on", "id": "i"}},
+		c14Case{desc: "bound-before-static:style-object", tpl: `<p :style="{color: c}" style="color:red;margin:0">t</p>`, data: map[string]any{"c": "blue"}, want: map[string]string{"style": ""}, style: map[string]string{"color": "blue", "margin": "0"}},
+		c14Case{desc: "bound-before-static:title", tpl: `<p v-bind:title="t" title="static">t</p>`, data: map[string]any{"t": "bound title"}, want: map[string]string{"title": "bound title"}},
+		c14Case{desc: "bound-before-static:falsy-keeps-static", tpl: `<p :title="t" title="static" :data-k="k" data-k="s">t</p>`, data: map[string]any{"t": "", "k": "K"}, want: map[string]string{"title": "static", "data-k": "K"}},
+		c14Case{desc: "bound-between-statics", tpl: `<p id="i" :class="x" lang="en" class="a" :lang="l">t</p>`, data: map[string]any{"x": "b", "l": "de"}, want: map[string]string{"class": "a b", "id": "i", "lang": "de"}},
 		c14Case{desc: "style-object:hyphen-key", tpl: `<p :style="{'font-size': s}">t</p>`, data: map[string]any{"s": "9px"}, want: map[string]string{"style": ""}, style: map[string]string{"font-size": "9px"}},
 		c14Case{desc: "style-bound-string", tpl: `<p style="color: red" :style="s">t</p>`, data: map[string]any{"s": "color: green; top: 1px"}, want: map[string]string{"style": ""}, style: map[string]string{"color": "green", "top": "1px"}},
 		c14Case{desc: "style-bound-nonstring", tpl: `<p style="color: red" :style="n">t</p>`, data: map[string]any{"n": 5}, want: map[string]string{"style": ""}, style: map[string]string{"color": "red"}},
